@@ -628,6 +628,14 @@ pub fn gen(seed: u64, count: usize, tier: &str, params: &Params) -> Vec<Value> {
                 if nq >= 2 && rng.chance(1, 8) { qs = (0..nq).map(|k| if (k + rng.below(2) as usize) % 2 == 0 { json!({"a": 0, "b": 1, "u": 0}) } else { json!({"a": 1, "b": 1, "u": 0}) }).collect();
                                                  qs[0] = json!({"a": 1, "b": 1, "u": 0}); qs[1] = json!({"a": 0, "b": 1, "u": 0}); }
                 else if nq >= 2 && rng.chance(1, 10) { let d = qs[0].clone(); qs = vec![d; nq]; }
+                // request lists in ascending order (with their repeats adjacent), sometimes with two requests strictly inside one cell
+                if qs.len() >= 2 && rng.chance(1, 3) {
+                    if shape[axis] >= 2 && rng.chance(1, 2) {
+                        let m = (shape[axis] - 1) as i64; let k = rng.range(0, m - 1);
+                        qs[0] = json!({"a": 8 * k + 3, "b": 8 * m, "u": 0}); qs[1] = json!({"a": 8 * k + 5, "b": 8 * m, "u": 0});
+                    }
+                    qs.sort_by(|x, y| make_q(x).partial_cmp(&make_q(y)).unwrap());
+                }
                 let api = if nd == 1 && rng.chance(1, 2) { if nq == 1 && rng.chance(1, 2) { "1d_single" } else { "1d_bulk" } }
                           else if nq == 1 && rng.chance(1, 2) { "axis_single" } else { "axis_bulk" };
                 let script: Vec<i64> = if rng.chance(1, 3) { (0..rng.below(6)).map(|_| rng.below(1000) as i64).collect() } else { vec![] };
